@@ -104,11 +104,18 @@ def set_line_filter(fn) -> None:
     _line_filter = fn
 
 
+_filter_cache: dict = {}
+
+
 def _cb_line(code, line):
     if not _relevant(code.co_filename):
         return mon.DISABLE
-    if _line_filter is not None and not _line_filter(code):
-        return mon.DISABLE
+    if _line_filter is not None:
+        v = _filter_cache.get(code)
+        if v is None:
+            v = _filter_cache[code] = bool(_line_filter(code))
+        if v is False:
+            return mon.DISABLE
     st = getattr(_tls, "st", None)
     if st is None:
         return None
@@ -117,6 +124,78 @@ def _cb_line(code, line):
         return None
     sched._step(st, _region_of(code) if sched.record_regions else None)
     return None
+
+
+TOOL2 = 5
+_deep_codes: list = []
+_deep_on = [False]
+
+
+def _cb_line_deep(code, line):
+    st = getattr(_tls, "st", None)
+    if st is None:
+        return None
+    sched = st.sched
+    if sched.line_level and sched.deep:
+        sched._step(st, "compile" if sched.record_regions else None)
+    return None
+
+
+def install_deep(functions) -> None:
+    """Code objects that are pre-emption points only in 'deep' runs: LINE events under a second tool id,
+    switched on/off per run with set_deep() (no per-line cost at all in the other runs)."""
+    if mon.get_tool(TOOL2) is None:
+        mon.use_tool_id(TOOL2, "jinja-verif-sim-deep")
+        mon.register_callback(TOOL2, _E.LINE, _cb_line_deep)
+    for f in functions:
+        f = getattr(f, "__func__", f)
+        code = getattr(f, "__code__", None)
+        if code is None:
+            continue
+        for c in _walk_codes(code):
+            if c not in _deep_codes:
+                _deep_codes.append(c)
+
+
+def set_deep(on: bool) -> None:
+    if _deep_on[0] == on:
+        return
+    _deep_on[0] = on
+    for c in _deep_codes:
+        mon.set_local_events(TOOL2, c, _E.LINE if on else 0)
+
+
+_line_on = [False]
+
+
+TOGGLE_LINE = [False]
+
+
+def _line_events(on: bool) -> None:
+    """Global LINE events.  Default: on for the life of the process once installed (switching them makes CPython
+    re-instrument every code object at its next execution; for a check whose every run is simulated that costs
+    more than it saves).  With TOGGLE_LINE set (C29: a third of its runs and all reference renders / compilations
+    are not simulated, and run 10x faster without the per-line callback) they are on only inside Sched.run()."""
+    if not _installed["line"]:
+        return
+    if not TOGGLE_LINE[0]:
+        on = True
+    if _line_on[0] != on:
+        mon.set_events(TOOL, _E.LINE if on else 0)
+        _line_on[0] = on
+
+
+def monitoring_off() -> None:
+    """For forked reference children: no simulated threads will run here, drop all instrumentation."""
+    try:
+        mon.set_events(TOOL, 0)
+        for c in list(_installed["instr_codes"]):
+            mon.set_local_events(TOOL, c, 0)
+        if mon.get_tool(TOOL2) is not None:
+            for c in _deep_codes:
+                mon.set_local_events(TOOL2, c, 0)
+    except Exception:
+        pass
 
 
 def _walk_codes(code):
@@ -148,9 +227,9 @@ def install(src_dir: str, *, line_events: bool = False, instr_classes: t.Iterabl
                 if c not in _installed["instr_codes"]:
                     mon.set_local_events(TOOL, c, _E.INSTRUCTION)
                     _installed["instr_codes"].add(c)
-    if line_events and not _installed["line"]:
-        mon.set_events(TOOL, _E.LINE)
+    if line_events:
         _installed["line"] = True
+        _line_events(False)
 
 
 def add_relevant_filename(name: str) -> None:
@@ -206,6 +285,7 @@ class Sched:
         self.line_level = line_level
         self.record_regions = record_regions
         self.lock_blocks = 0
+        self.deep = True  # code objects the line filter marks "deep" are pre-emption points only when set
 
     # -- building --------------------------------------------------------
     def spawn(self, fn, name: str | None = None) -> SimThread:
@@ -230,6 +310,13 @@ class Sched:
     def run(self) -> None:
         if not self.threads:
             return
+        _line_events(self.line_level)
+        try:
+            self._run()
+        finally:
+            _line_events(False)
+
+    def _run(self) -> None:
         carriers = _get_carriers(len(self.threads))
         for st, c in zip(self.threads, carriers):
             st.sem = c.sem
@@ -248,6 +335,7 @@ class Sched:
         the calling thread (no OS threads, no switching).  Gives the serial
         outcome and per-thread step horizons cheaply."""
         prev = getattr(_tls, "st", None)
+        _line_events(self.line_level)
         try:
             for st in self.threads:
                 _tls.st = st
@@ -260,6 +348,7 @@ class Sched:
                 st.state = "done"
         finally:
             _tls.st = prev
+            _line_events(False)
 
     def _body(self, st: SimThread) -> None:
         # runs on a carrier thread, after the first hand-over of the baton
